@@ -64,6 +64,10 @@ def random_super_case(rng, algo, max_obj, max_sp, max_fam, coherent_only=True, c
     case["costs"] = gen.tame(case["costs"], len(lm))
     if rng.random() < 0.5 and not isinstance(Gn, str):
         case["syn"] = gen.clade_syntenies(rng, Gn, rng.randint(1, max_fam), ordered=ordered)
+    r = rng.random()
+    if r < 0.15:
+        # the container in which syntenies are handed over: tuples (ordered) / sets or frozensets (unordered)
+        case["syn_form"] = "tuple" if ordered else ("set" if r < 0.07 else "frozenset")
     if ordered and rng.random() < root_order_p and not isinstance(Gn, str):
         ro = gen.common_supersequence(rng, case["syn"])
         if ro is not None:
